@@ -27,6 +27,10 @@ Fixpoint list_eqb {A} (eqb : A -> A -> bool) (a b : list A) : bool :=
   end.
 Definition chk_layout (total : Z) (obs : list part) : bool := list_eqb part_eqb (layout go_consts total) obs.
 
+(** the constants of download.go the model was written for *)
+Definition chk_consts (num mn mx : Z) (retries : nat) : bool :=
+  (c_num go_consts =? num) && (c_min go_consts =? mn) && (c_max go_consts =? mx) && Nat.eqb (c_retries go_consts) retries.
+
 (** *** SHA-256 for evaluation: the digests of the published blobs are known; every other content hashes to 0,
     which is no layer's digest (collision freedom of SHA-256 is what makes this table a faithful stand-in) *)
 Definition H_of (tab : list (bytes * digest)) (b : bytes) : digest :=
@@ -111,3 +115,6 @@ Definition chk_pull (tab : list (bytes * digest)) (fx : bool) (pre : store) (nam
                             | None => negb (t_head (snd dt)) && negb (t_get (snd dt))
                             end) byd
   end.
+
+(** server start between attempts *)
+Definition chk_prune (pre post : store) : bool := store_eqb (startup_prune pre) post.
